@@ -2,14 +2,14 @@
    Statements about the hand-written model GLMM.IntFn (glm/detail/func_integer.inl), tied to the code on every run by
    the correspondence check (scalar and vector overloads, widths 8-64, signed and unsigned; exhaustive for 8 bits).
    8/16-bit element types: exhaustive (finite domain).  32-bit carry/borrow/multiplication: all operands (lia/nia).
-   bitfieldExtract unsigned: all widths, values and fields below 32 bits.  NOT theorems for 32/64-bit element types:
-   bitCount, findLSB, findMSB, bitfieldReverse, bitfieldInsert (correspondence + oracle only).
+   bitfieldExtract unsigned: all widths, values and fields.  bitfieldReverse: every value of every width (OR-homomorphism).
+   NOT theorems for 32/64-bit element types: bitCount, findLSB, findMSB, bitfieldInsert (correspondence + oracle only).
    Refuted statements = known findings (known_findings.txt): usubBorrow, signed bitfieldExtract.  (Fields of 32 bits and more of a
    64-bit element were a third one until the mask of bitfieldExtract was computed in the unsigned element type.) *)
 Require Import ZArith List Bool.
 Import ListNotations.
 From GLMM Require Import Half IntFn.
-From W Require A_C05_defs P_C05_w8 P_C05_w16_0 P_C05_w16_1 P_C05_w16_2 P_C05_w16_3 P_C05_w16_4 P_C05_w16_5 P_C05_w16_6 P_C05_w16_7 P_C05_general.
+From W Require A_C05_defs P_C05_w8 P_C05_w16_0 P_C05_w16_1 P_C05_w16_2 P_C05_w16_3 P_C05_w16_4 P_C05_w16_5 P_C05_w16_6 P_C05_w16_7 P_C05_general P_C05_reverse.
 Import A_C05_defs.
 Local Open Scope Z_scope.
 Theorem C05_uint8_all_values : forallb (unary_ok false 8) (vals false 8) = true. Proof. exact P_C05_w8.unary_u8. Qed.
@@ -42,7 +42,14 @@ Theorem C05_usubBorrow_computes_y_minus_x : forall x y, 0 <= x < 2 ^ 32 -> 0 <= 
 Proof. exact P_C05_general.usubBorrow_characterised. Qed.
 Theorem C05_bitfieldExtract_signed_refuted : exists v off bits, in_T true 32 v = true /\ 0 <= off /\ 0 <= bits /\ off + bits <= 32 /\ bitfieldExtract true 32 v off bits <> extract_spec true 32 v off bits.
 Proof. exact P_C05_general.bitfieldExtract_signed_refuted. Qed.
+(* bitfieldReverse, EVERY value of the 32- and 64-bit element types, signed and unsigned: bit j of the result is bit w-1-j of the
+   argument (the ladder distributes over OR; its 32 / 64 single-bit values are checked by computation) *)
+Theorem C05_bitfieldReverse_all_32bit_values : forall sg x j, 0 <= j < 32 -> Z.testbit (umod 32 (bitfieldReverse sg 32 x)) j = Z.testbit (umod 32 x) (31 - j).
+Proof. intros sg x j Hj. exact (P_C05_reverse.bitfieldReverse_all sg 32 x j P_C05_reverse.rev_bits_32 ltac:(auto with arith) Hj). Qed.
+Theorem C05_bitfieldReverse_all_64bit_values : forall sg x j, 0 <= j < 64 -> Z.testbit (umod 64 (bitfieldReverse sg 64 x)) j = Z.testbit (umod 64 x) (63 - j).
+Proof. intros sg x j Hj. exact (P_C05_reverse.bitfieldReverse_all sg 64 x j P_C05_reverse.rev_bits_64 ltac:(auto with arith) Hj). Qed.
 Print Assumptions C05_16bit_all_values.
 Print Assumptions C05_imulExtended.
 Print Assumptions C05_bitfieldExtract_unsigned_all_widths.
 Print Assumptions C05_usubBorrow_refuted.
+Print Assumptions C05_bitfieldReverse_all_64bit_values.
